@@ -710,6 +710,8 @@ package engine
 //@   ensures takewindow: !all && last == 0 ==> len(result) <= take [C04]
 //@   ensures skipfirst: len(result) > 0 ==> result[0].MatchNumber > skip [C04]
 //@   ensures skipexact: last == 0 && len(result) > 0 ==> result[0].MatchNumber == skip + 1 [C04]
+//@   loop 1 ghost lastEnd Int := 0 ;; ((currentState.status == SUCCESS && len(currentState.currentMatch) != 0) ? currentState.currentFileOffset : lastEnd)
+//@   loop 1 invariant stepover: lastEnd <= fileOffset [C04]
 //@   loop 1 invariant window: (last != 0 ==> len(matches.store) <= last) && (last == 0 ==> len(matches.store) == max(0, matchNumber - skip)) && (!all ==> matchNumber <= skip + take) [C04]
 //@   loop 2 invariant window: (last != 0 ==> len(matches.store) <= last) && (last == 0 ==> len(matches.store) == max(0, matchNumber - skip)) && (!all ==> matchNumber <= skip + take) [C04]
 //@   loop 1 invariant first: last == 0 && len(matches.store) > 0 ==> matches.store[0].MatchNumber == skip + 1 [C04]
